@@ -333,7 +333,7 @@ def _nearmiss_case(draw):
                   name.replace('.', '..', 1) if '.' in name else name + '..x',
                   name + '.', '/' + sel][k]
     else:
-      bad_name = draw(st.sampled_from(['a.b/' + sel, 's/m1.x/' + sel, name + '/', sel + '/s'])
+      bad_name = draw(st.sampled_from(['a.b/' + sel, 's/m1.x/' + sel, name + '/', 'm1.sub/' + sel])
                       if where in ('key', 'block', 'macrodef') else
                       st.sampled_from([sel + '/', '/' + name, name + '//x']))
     if where == 'key':
